@@ -88,7 +88,9 @@ def gen(rng, tier, ctx):
         vals = [rng.randrange(n_other) for _ in range(rng.randint(0, 3))]
         ops.append([op, vals, rng.randrange(8), rng.choice(ARG_FORMS)])
     return {"kind": kind, "n_other": n_other, "start": start, "start_form": rng.choice(["ctor", "assign", "append"]), "ops": ops,
-            "twins": rng.random() < 0.3, "odd": rng.random() < 0.2}
+            "twins": rng.random() < 0.3, "odd": rng.random() < 0.2,
+            # the field is declared on Person / Org, the owner may be an instance of a subclass
+            "owner_cls": rng.choice(["Person", "Employee", "Manager"] if kind == "list" else ["Org", "Dept", "Org"])}
 
 
 def witnesses():
@@ -275,7 +277,9 @@ def run(spec, ctx):
     if odd:
         C["odd_cases"] += 1
     # odd + set: the owner itself is falsy while it has no members
-    Owner = (om.VPerson if twins else om.Person) if kind == "list" else (om.VOrg if twins else (om.Bag if odd else om.Org))
+    plain_owner = om.ALL_CLASSES.get(spec.get("owner_cls", "Person" if kind == "list" else "Org"))
+    C["owner_class:" + plain_owner.__name__] += 1
+    Owner = (om.VPerson if twins else plain_owner) if kind == "list" else (om.VOrg if twins else (om.Bag if odd else plain_owner))
     if spec["start_form"] == "ctor":
         owner = Owner(owner_name, **{field: mk(start)})
     else:
